@@ -1,3 +1,3 @@
 SPECIFICATION Spec
-CONSTANTS MaxLen = 0  MaxLen2 = 0  MaxLen3 = 4  MaxLen4 = 0  Shrinking = TRUE  MaxPass = 12  Origin = 252
+CONSTANTS MaxLen = 0  MaxLen2 = 0  MaxLen3 = 4  MaxLen4 = 0  MaxLen5 = 0  Shrinking = TRUE  MaxPass = 12  Origin = 252
 INVARIANT Terminates
